@@ -14,6 +14,7 @@ import (
 const nRegs = 4
 
 type fieldMachine struct {
+	lean bool // C09: do not log the operands after the call (C01 does)
 	f    *Field
 	t    *TraceWriter
 	regs [nRegs]reflect.Value
@@ -217,7 +218,7 @@ func (m *fieldMachine) vecOp(op string, a, b []*big.Int, lr int, off int, scalar
 	}
 	if pk {
 		e["panic"] = pm
-	} else {
+	} else if !m.lean {
 		// the sources must be untouched
 		e["vaafter"] = f.VecRaw(va)
 		if _, ok := e["vb"]; ok {
